@@ -57,6 +57,7 @@ type Proc struct {
 	Pid      int      `json:"pid"` // process id of the traced blackdagger process (the child of strace)
 	Tag      string   `json:"tag"`
 	Kind     string   `json:"kind"` // start | retry
+	Path     string   `json:"path"` // the DAG file as given on the command line
 	Inject   string   `json:"inject"`
 	Launched float64  `json:"launched"`
 	Exited   float64  `json:"exited"`
@@ -162,6 +163,26 @@ func (s *Scenario) histFiles() []string {
 
 // launch starts a process under strace; inject = "" or e.g. "unlinkat:delay_enter=2000000:when=1"
 func (s *Scenario) launch(kind, inject, reqid string) *Proc {
+	return s.launchP(kind, inject, reqid, "")
+}
+
+// spellings of the DAG file's absolute path that are not clean; they name the same file
+func (s *Scenario) spelling(k int) string {
+	d, f := filepath.Dir(s.dagFile()), filepath.Base(s.dagFile())
+	switch k % 3 {
+	case 0:
+		return d + "//" + f
+	case 1:
+		return d + "/./" + f
+	}
+	return d + "/../" + filepath.Base(d) + "/" + f
+}
+
+// launchP: as launch, with the DAG file given under another spelling of its path ("" = the clean one)
+func (s *Scenario) launchP(kind, inject, reqid, path string) *Proc {
+	if path == "" {
+		path = s.dagFile()
+	}
 	s.mu.Lock()
 	i := len(s.Procs)
 	p := &Proc{I: i, Tag: fmt.Sprintf("P%d", i), Kind: kind, Inject: inject, done: make(chan struct{}), outBuf: &strings.Builder{}}
@@ -174,10 +195,11 @@ func (s *Scenario) launch(kind, inject, reqid string) *Proc {
 	}
 	args = append(args, binPath)
 	if kind == "retry" {
-		args = append(args, "retry", "--req="+reqid, s.dagFile())
+		args = append(args, "retry", "--req="+reqid, path)
 	} else {
-		args = append(args, "start", "-q", s.dagFile())
+		args = append(args, "start", "-q", path)
 	}
+	p.Path = path
 	cmd := exec.Command("strace", args...)
 	cmd.Env = s.env(p.Tag)
 	cmd.Dir = s.dir
@@ -262,8 +284,12 @@ func (p *Proc) wait(d time.Duration) bool {
 
 // launch and wait, counting the history files that appear meanwhile
 func (s *Scenario) launchWait(kind, inject, reqid string) *Proc {
+	return s.launchWaitP(kind, inject, reqid, "")
+}
+
+func (s *Scenario) launchWaitP(kind, inject, reqid, path string) *Proc {
 	before := s.histIDs()
-	p := s.launch(kind, inject, reqid)
+	p := s.launchP(kind, inject, reqid, path)
 	p.wait(30 * time.Second)
 	for id := range s.histIDs() {
 		if !before[id] {
@@ -549,6 +575,9 @@ func scnSeq(s *Scenario) {
 	pr := s.probe("steps-before")
 	s.launchWait("start", "", "")
 	s.launchWait("retry", "", pr.ReqID)
+	// the same file under non-clean spellings of its absolute path: still the same DAG
+	s.launchWaitP("start", "", "", s.spelling(0))
+	s.launchWaitP("start", "", "", s.spelling(1))
 	s.probe("steps-after")
 	if !waitUntil(15*time.Second, func() bool { return s.markerHas("exit_begin", p0.Tag) }) {
 		s.Infra = "first run never reached its exit handler"
@@ -557,6 +586,7 @@ func scnSeq(s *Scenario) {
 	s.probe("handler-before")
 	s.launchWait("start", "", "")
 	s.launchWait("retry", "", pr.ReqID)
+	s.launchWaitP("start", "", "", s.spelling(2))
 	s.probe("handler-after")
 	p0.wait(30 * time.Second)
 	s.probe("after-exit")
